@@ -79,6 +79,8 @@ pub const STREAM: usize = 1;
 pub const OBJ_REV: usize = 2;
 /// shares the destructor name `.get` with OBJ, at a different position/rank
 pub const CELL: usize = 3;
+/// a one-destructor function object (cheap in-place comatch elimination)
+pub const FUN1: usize = 4;
 
 pub fn codata_decls() -> Vec<CodataDecl> {
     vec![
@@ -86,6 +88,7 @@ pub fn codata_decls() -> Vec<CodataDecl> {
         CodataDecl { name: "Stream", recursive: true, dtors: vec![(".hd", ret(VT::Int)), (".tl", CT::Codata(STREAM))] },
         CodataDecl { name: "ObjR", recursive: false, dtors: vec![(".flag", ret(VT::Data(BOOL))), (".app", func(VT::Int, ret(VT::Int))), (".get", ret(VT::Int))] },
         CodataDecl { name: "Cell", recursive: false, dtors: vec![(".get", ret(VT::Int)), (".hop", ret(VT::Int)), (".zip", ret(VT::Int))] },
+        CodataDecl { name: "Fun1", recursive: false, dtors: vec![(".call", func(VT::Int, ret(VT::Int)))] },
     ]
 }
 
